@@ -243,6 +243,10 @@ def proof_side_file_uncached(pid, stem, thorough=False):
 PROP_GEN = {
     "C14": {"modules": ["CompactTableGen"], "files": ["GenLinkCompactTable.v", "GenPropsCompactTable.v", "C14g.v"],
             "main_deps": ["AutomatonProofs.vo", "GenBase.vo"], "main_cone": ["AutomatonProofs.v", "GenBase.v"]},
+    "C02": {"modules": ["AutomatonGen"], "files": ["GenLinkAutomaton.v", "GenPropsAutomaton.v", "C02g.v"],
+            "main_deps": ["AutomatonProofs.vo", "GenBase.vo"], "main_cone": ["AutomatonProofs.v", "GenBase.v"]},
+    "C13": {"modules": ["BuilderGen"], "files": ["GenLinkBuilder.v", "GenPropsBuilder.v", "C13g.v"],
+            "main_deps": ["BuilderProofs.vo", "GenBase.vo"], "main_cone": ["BuilderProofs.v", "GenBase.v"]},
     "C15": {"modules": ["LoopRangeGen"], "files": ["GenLinkLoopRange.v", "GenPropsLoopRange.v", "C15g.v"],
             "main_deps": ["LoopRangeProofs.vo", "GenBase.vo"], "main_cone": ["LoopRangeProofs.v", "GenBase.v"]},
     "C06": {"modules": ["StrSearchGen"], "files": ["GenLinkStrSearch.v", "GenPropsStrSearch.v", "C06g.v"],
@@ -268,9 +272,9 @@ PROP_GEN = {
 # model the property's theorems speak about is no longer the code.
 _REGEX_SUPPORT = ["C20", "C11", "C12", "C15"]
 SUPPORT_GEN = {
-    "C01": _REGEX_SUPPORT, "C02": _REGEX_SUPPORT, "C03": _REGEX_SUPPORT, "C05": _REGEX_SUPPORT, "C07": _REGEX_SUPPORT,
-    "C10": _REGEX_SUPPORT, "C16": _REGEX_SUPPORT, "C18": _REGEX_SUPPORT, "C19": _REGEX_SUPPORT,
-    "C04": ["C20", "C11", "C12", "C14"], "C13": ["C20", "C11", "C12"], "C14": ["C20", "C11", "C12"],
+    "C01": _REGEX_SUPPORT, "C02": _REGEX_SUPPORT + ["C13"], "C03": _REGEX_SUPPORT, "C05": _REGEX_SUPPORT, "C07": _REGEX_SUPPORT,
+    "C10": _REGEX_SUPPORT, "C16": _REGEX_SUPPORT, "C18": _REGEX_SUPPORT, "C19": _REGEX_SUPPORT + ["C13", "C02"],
+    "C04": ["C20", "C11", "C12", "C14", "C13", "C02"], "C13": ["C20", "C11", "C12", "C02"], "C14": ["C20", "C11", "C12", "C13", "C02"],
     "C17": ["C08", "C06", "C09"], "C11": ["C20"], "C12": ["C20", "C11"],
 }
 
